@@ -3726,7 +3726,10 @@ fn parse_group<'a>(
     let mut errors = term.errors.clone();
 
     // Check if we found the right parenthesis.
-    if !found {
+    if found {
+        // We found it, but we may have skipped over some unexpected tokens to get there.
+        errors.extend(phony_errors);
+    } else {
         // We didn't find it. Report an error.
         errors.push(Rc::new(move |source_path, source_contents| {
             // Compute the source range for the left parenthesis.
